@@ -551,14 +551,19 @@ class ASTString(ASTTemplate):
             return "", ""
         grouping = ""
         if node.grouping is not None:
-            grouping_sep = ", " if len(node.grouping) > 1 else ""
             grouping_values = []
+            time_aggs = []
             for grouping_value in node.grouping:
                 if isinstance(grouping_value, TimeAggregation):
-                    grouping_values.append(self.visit(grouping_value))
+                    # the grammar puts time_agg after the component list, without a comma
+                    time_aggs.append(self.visit(grouping_value))
                 else:
                     grouping_values.append(_format_reserved_word(grouping_value.value))
-            grouping = f" {node.grouping_op} {grouping_sep.join(grouping_values)}"
+            parts = [node.grouping_op]
+            if grouping_values:
+                parts.append(", ".join(grouping_values))
+            parts.extend(time_aggs)
+            grouping = " " + " ".join(parts)
         having = f" {self.visit(node.having_clause)}" if node.having_clause is not None else ""
         return grouping, having
 
